@@ -522,3 +522,13 @@ Proof.
     rewrite updl_stored. exact E1.
   - rewrite updl_stored. exact E1.
 Qed.
+Lemma add_timeout_stored s r r0 : aget (store (add_timeout s r)) r0 = None <-> aget (store s) r0 = None.
+Proof.
+  unfold add_timeout. cbv zeta.
+  set (s1 := updl s r (fun l => l <| l_timeouted := false |>)).
+  assert (E1 : aget (store s1) r0 = None <-> aget (store s) r0 = None) by apply updl_stored.
+  destruct (QUEUE_MAX_WAIT <? l_tcc (getl s1 r)).
+  - match goal with |- aget (store (?S <| tlong := _ |>)) r0 = None <-> _ => change (store (S <| tlong := _ |>)) with (store S) end.
+    rewrite updl_stored. exact E1.
+  - rewrite updl_stored. exact E1.
+Qed.
